@@ -41,8 +41,21 @@ Definition meant (w : waddr) : addr :=
 Definition sender_remote (w : waddr) : addr :=
   match parse w with Some a => a | None => nosender end.
 
-(** message classes handleReceivedErrorWithMessage switches on *)
-Inductive mkind := KUser | KPostStart | KTerminated | KSendDL.
+(** message classes.  handleReceivedErrorWithMessage's recursion guard excludes exactly PostStart, Terminated
+    and SendDeadletter; every other message — a user message, the reentrancy envelopes AsyncRequest /
+    AsyncResponse (system messages for the stopping gate, but queued in the USER mailbox, so a full bounded
+    mailbox refuses them), and the remaining internal messages (PoisonPill, Panicking, Pause/ResumePassivation,
+    PanicSignal) when they reach the function — is dead-lettered. *)
+Inductive mkind := KUser | KAsyncRequest | KAsyncResponse | KInternal | KPostStart | KTerminated | KSendDL.
+Definition excluded (k : mkind) : bool :=
+  match k with KPostStart | KTerminated | KSendDL => true | _ => false end.
+
+(** PID state bits read by IsRunning (actor/pid.go): running and none of stopping / suspended / passivating.
+    A node found in the tree whose PID is not running in this sense takes deliverRemoteTellMessage's
+    "not running" branch.  (Other bits — passivation paused, system, singleton … — do not matter.) *)
+Record pstate := PS { ps_running : bool; ps_stopping : bool; ps_suspended : bool; ps_passivating : bool }.
+Definition is_running (p : pstate) : bool :=
+  ps_running p && negb (ps_stopping p) && negb (ps_suspended p) && negb (ps_passivating p).
 
 (** a dead letter: (message id, sender, receiver) *)
 Definition letter := (nat * addr * addr)%type.
@@ -74,6 +87,10 @@ Definition rcv_or (r : option addr) : addr := match r with Some a => a | None =>
 Inductive tree :=
 | TMissing | TRemoved | TNotRunning | TDispFail
 | TOk (accepted : bool) (* handleRemoteTell -> doReceive: target mailbox took the message? *).
+
+(** the tree outcome for a node that holds a PID in state [p] *)
+Definition tree_of_state (p : pstate) (accepted : bool) : tree :=
+  if is_running p then TOk accepted else TNotRunning.
 
 Inductive op :=
 | OLocal (e : env) (stream : bool) (snd : lsender) (rcv : option addr) (k : mkind) (mid : nat)
@@ -159,16 +176,14 @@ Definition drain_msg (e : env) (w : wmsg) (s1 : st) : st :=
 Definition step (cap : nat) (s : st) (o : op) : st :=
   match o with
   | OLocal e stream snd rcv k mid =>
-      match k with
-      | KUser =>
-          let want := (mid, sender_of snd, rcv_or rcv) in
-          if negb stream then lose CNoStream want s
-          else match rcv with
-               | None => lose CNoAddr want s
-               | Some r => to_dl e (mid, sender_of snd, r) want s
-               end
-      | _ => s
-      end
+      if excluded k then s
+      else
+        let want := (mid, sender_of snd, rcv_or rcv) in
+        if negb stream then lose CNoStream want s
+        else match rcv with
+             | None => lose CNoAddr want s
+             | Some r => to_dl e (mid, sender_of snd, r) want s
+             end
   | OToDL e f t mid => to_dl e (mid, f, t) (mid, f, t) s
   | OAskSend e acc snd t mid =>
       if acc then s else to_dl e (mid, sender_of snd, t) (mid, sender_of snd, t) s
@@ -218,8 +233,9 @@ Definition run (cap : nat) (ops : list op) (s : st) : st := fold_left (step cap)
 (** what the property demands: one dead letter (message, sender, receiver) per accepted-then-dropped message *)
 Definition spec_op (o : op) : list letter :=
   match o with
-  | OLocal _ _ snd rcv KUser mid => [(mid, sender_of snd, rcv_or rcv)]
-  | OLocal _ _ _ _ _ _ => []   (* PostStart / Terminated / SendDeadletter: runtime-internal, excluded *)
+  | OLocal _ _ snd rcv k mid =>
+      if excluded k then []    (* PostStart / Terminated / SendDeadletter: runtime-internal, excluded *)
+      else [(mid, sender_of snd, rcv_or rcv)]
   | OToDL _ f t mid => [(mid, f, t)]
   | OAskSend _ acc snd t mid => if acc then [] else [(mid, sender_of snd, t)]
   | OAskTimeout _ acc snd t mid => if acc then [(mid, sender_of snd, t)] else []
